@@ -3,7 +3,7 @@
 # anyway (cargo fingerprints /repo's sources); this just warms the build.
 set -e
 cd "$(dirname "$0")"
-export CARGO_NET_OFFLINE=true RUSTUP_TOOLCHAIN=1.96.0 CARGO_TARGET_DIR="$PWD/.build/qvdump"
+export CARGO_NET_OFFLINE=true RUSTUP_TOOLCHAIN=1.96.0 CARGO_TARGET_DIR="$PWD/.build/qvdump" RUSTFLAGS="--cfg quiver_verif"
 mkdir -p .build evidence replays
 cp /repo/Cargo.lock tools/qvdump/Cargo.lock 2>/dev/null || true
 (cd tools/qvdump && cargo build --offline 2>&1 | tail -3)
